@@ -977,6 +977,11 @@ class Engine:
     def new_list(self, items, st):
         return vlist(items)
 
+    def ex_Dict(self, e, st):
+        if not e.keys:
+            return [(st, V('dict0'))]
+        raise Unsupported(e, 'dict literal')
+
     def ex_JoinedStr(self, e, st):
         return [(st, V('str', py=None, z=self.fresh('fstr', z3.StringSort())))]
 
